@@ -144,11 +144,24 @@ def check_lookup_names(chk, prog):
             for ai in LOOKUPS[cn]:
                 if ai >= len(c["ch"]) - 1:
                     continue
-                a = X.strip(c["ch"][1 + ai])
-                arms = [a]
-                if a.get("k") == "cond":        # SPIF_STR_STR(obj): obj is NULL ? "" : obj->s
-                    arms = [X.strip(a["ch"][1]), X.strip(a["ch"][2])]
-                for a_ in arms:
+                def arms_of(e, depth=0):
+                    e = X.strip(e)
+                    if e is None or depth > 3:
+                        return []
+                    if e.get("k") == "cond":        # SPIF_STR_STR(obj): obj is NULL ? "" : obj->s
+                        return arms_of(e["ch"][1], depth + 1) + arms_of(e["ch"][2], depth + 1)
+                    if e.get("k") == "ref" and e.get("rk") == "local":
+                        out_ = []
+                        for y in walk(f.body):      # a local the text was put in first: follow its definitions
+                            if y.get("k") == "assign" and y.get("op") == "=" and X.strip(y["ch"][0]).get("d") == e["d"]:
+                                out_ += arms_of(y["ch"][1], depth + 1)
+                            elif y.get("k") == "decl":
+                                for dcl in y.get("decls", ()):
+                                    if dcl["d"] == e["d"] and dcl.get("init") is not None:
+                                        out_ += arms_of(dcl["init"], depth + 1)
+                        return out_
+                    return [e]
+                for a_ in arms_of(c["ch"][1 + ai]):
                     if a_.get("k") == "member" and a_.get("n") == "s":
                         b = X.strip(a_["ch"][0])
                         if b.get("k") == "member":
